@@ -308,7 +308,7 @@ def checkN2I (desc tree : PV) : List String := Id.run do
   let lc := ((fileOf files layercontentsFile "plist").getD (.arr [])).items.filterMap pairOf
   let mut known : List String := topFiles
   if lc.map (·.1) != dlayers.filterMap (strOf · "name") || (lc.head?.map (·.2)) != some defaultGlyphsDir ||
-     !nodup (lc.map (·.2)) || lc.length != ((fileOf files layercontentsFile "plist").getD (.arr [])).items.length then
+     !nodup (lc.map (·.2)) || !nodup (lc.map (·.2.toLower)) || lc.length != ((fileOf files layercontentsFile "plist").getD (.arr [])).items.length then
     fails := fails ++ ["n2i-layers"]
   for (dl, (_, dir)) in dlayers.zip lc do
     known := known ++ [dir ++ "/" ++ contentsFile, dir ++ "/" ++ layerinfoFile]
@@ -495,6 +495,25 @@ def runN (inp obs : List String) : Verdict :=
           tags := ["i2n", "rejected"] ++ feats ++ sizeTags desc, model := modelS }
       | _ => { agree := false, model := "bad-i2n-observation" }
     | _, _ => { agree := false, model := "bad-i2n-line" }
+  | [_, "les", src, _seed, descTok, opsTok] =>
+    -- load, edit, save: the description of the SAVED font is the dump of the in-memory font after the edits
+    let feats := ["les-" ++ src]
+    let nops := if opsTok = "-" then 0 else (opsTok.splitOn ";").length
+    match parseTok descTok, obs with
+    | some desc0, [dumpTok, treeTok] =>
+      if treeTok.startsWith "malformed:" then
+        { agree := false, spec := withFeats feats ["n2i-wellformed"], tags := ["les", "malformed"] ++ sizeTags desc0, model := "ok" }
+      else match parseTok dumpTok, parseTok treeTok with
+        | some dump, some tree =>
+          let fails := checkN2I dump tree
+          { agree := fails.isEmpty, spec := withFeats feats fails,
+            tags := ["les", "les-" ++ src, "ops" ++ toString (min nops 5), if fails.isEmpty then "found" else "not-found"] ++
+              sizeTags dump, model := "ok" }
+        | _, _ => { agree := false, model := "unparsable-les-observation" }
+    | some desc0, [e] =>
+      { agree := false, spec := withFeats feats [if e.startsWith "save" then "n2i-save" else "les-load"],
+        tags := ["les", "failed"] ++ sizeTags desc0, model := "ok" }
+    | _, _ => { agree := false, model := "bad-les-line" }
   | _ => { agree := false, model := "bad-line" }
 
 /-- lines of the first protocol version (no `pre` / `req` token) are a fresh target / a plain `Font::load` -/
